@@ -636,8 +636,68 @@ func (g *hGen) mutate() {
 		}
 		g.add("setResources", objs...)
 	case 11:
+		ghostPods, ghostNps, ghostAnps, hadBANP := g.pods, g.nps, g.anps, g.banp
 		g.pods, g.nps, g.anps, g.nss, g.banp = map[string]*corev1.Pod{}, map[string]*netv1.NetworkPolicy{}, map[string]*apisv1a.AdminNetworkPolicy{}, map[string]bool{}, false
 		g.add("clear")
+		if r.chance(1, 2) {
+			// the aftermath of a clear: the engine is filled again with other objects, and then objects that were there
+			// before the clear (and are gone now) are deleted once more. Nothing the engine kept on the side for the
+			// old objects (indexes, sorted lists, owner tables) may act on the new ones.
+			for _, n := range g.nsNames[:g.nsN] {
+				g.nss[n] = true
+				g.add("insert", g.obj("Namespace", g.mkNamespace(n)))
+			}
+			for i, k := 0, r.between(2, 4); i < k; i++ {
+				key := g.podName()
+				ns, name := splitKey(key)
+				p := g.mkPod(ns, name)
+				g.pods[key] = p
+				g.add("insert", g.obj("Pod", p))
+			}
+			for i, k := 0, r.between(1, 3); i < k; i++ {
+				name := fmt.Sprintf("anp%d", r.intn(g.anpN))
+				if _, dup := g.anps[name]; dup {
+					continue
+				}
+				if _, was := ghostAnps[name]; was && r.chance(2, 3) {
+					continue // the old names mostly stay away, so that deleting them below is a delete of something absent
+				}
+				a := g.mkANP(name)
+				g.anps[name] = a
+				g.add("insert", g.obj("AdminNetworkPolicy", a))
+			}
+			if r.chance(1, 2) {
+				k := fmt.Sprintf("%s/np%d", g.ns(), r.intn(4))
+				if _, dup := g.nps[k]; !dup {
+					ns, name := splitKey(k)
+					g.nps[k] = g.mkNetpol(ns, name)
+					g.add("insert", g.obj("NetworkPolicy", g.nps[k]))
+				}
+			}
+			if r.chance(1, 3) {
+				g.banp = true
+				g.add("insert", g.obj("BaselineAdminNetworkPolicy", g.mkBANP("default")))
+			}
+			g.queries(r.between(2, 5))
+			for _, name := range sortedKeys(ghostAnps) {
+				if _, back := g.anps[name]; !back && r.chance(2, 3) {
+					g.add(delOp(), g.obj("AdminNetworkPolicy", ghostAnps[name]))
+				}
+			}
+			for _, k := range sortedKeys(ghostNps) {
+				if _, back := g.nps[k]; !back && r.chance(1, 2) {
+					g.add(delOp(), g.obj("NetworkPolicy", ghostNps[k]))
+				}
+			}
+			for _, k := range sortedKeys(ghostPods) {
+				if _, back := g.pods[k]; !back && r.chance(1, 2) {
+					g.add(delOp(), g.obj("Pod", ghostPods[k]))
+				}
+			}
+			if hadBANP && !g.banp && r.chance(1, 2) {
+				g.add(delOp(), g.obj("BaselineAdminNetworkPolicy", g.mkBANP("default")))
+			}
+		}
 	case 13:
 		// all pods of one owner are re-inserted back to back with the next port epoch (a rollout);
 		// no query is generated in between, so the workload is never observed half-way
@@ -852,7 +912,7 @@ func genHistory(r *rng, n int) *history {
 		// admin profile: few pods, broad selectors, and a churn of admin policies whose actions collide
 		g.nsN, g.podN, g.broad, g.owned = r.between(1, 2), 3, true, true
 		g.anpN, g.adminPre = 8, r.between(3, 6)
-		g.weights = []int{3, 1, 1, 0, 1, 1, 8, 9, 2, 2, 0, 0, 0, 0, 0, 0}
+		g.weights = []int{3, 1, 1, 0, 1, 1, 8, 9, 2, 2, 0, 2, 0, 0, 0, 0}
 	case prof < 4:
 		// delete-and-recreate profile: workloads disappear completely and come back
 		g.nsN, g.podN, g.tcpOnly, g.named, g.broad, g.owned = 1, 2, true, 3, true, true
